@@ -9,7 +9,7 @@ value identities are distinct (`FreshIds`, what the generator guarantees; needed
 twice").  So a `FAIL` of `drv_mon` on an implementation line that the model's own line passes is a difference
 between the implementation and the model, never an artefact of the monitor.
 
-Per check (K1 … K11) there is a separate theorem for every reachable state.
+Per check (K1 … K13) there is a separate theorem for every reachable state.
 -/
 namespace M1
 namespace Mon
@@ -107,7 +107,7 @@ end Mon
 /-- **The monitor never rejects the model**: for every finite history (with distinct value identities), every check
 of the monitor (`checkOp` = K1 count = owners, K2 allocator / destructor event discipline, K3 no leak, K4 gate
 verdicts, K5 stored addresses, K6 union variants, K7 copy-on-write, K8 unwrapping, K9 thin ⇄ fat conversions,
-K10 uninitialised views, K11 constructors) passes on the model's own observations. -/
+K10 uninitialised views, K11 constructors, K12 counts read inside callbacks, K13 `with_arc_mut`) passes on the model's own observations. -/
 theorem monitor_accepts_model (ops : List Op) (h : FreshIds ops) : Mon.checkTrace (Mon.modelTrace ops) = [] :=
   Mon.monitor_accepts_model_aux ops h
 
@@ -168,6 +168,17 @@ header and the elements handed in, in order, allocates exactly once and destroys
 theorem K11_sound_run (ops : List Op) (op : Op) :
     checkK11 (observeSlots (run ops)) op (observe (run ops) op) = [] := K11_sound (inv_run ops) op
 
+/-- K12 (C04): the count read inside a borrow callback (every API; scripts that do not replace / swap the lent Arc) is
+the number of owners before the call plus the clones the callback has made so far — the borrow is not counted -/
+theorem K12_sound_run (ops : List Op) (op : Op) :
+    checkK12 (observeSlots (run ops)) op (observe (run ops) op) = [] := K12_sound (inv_run ops) op
+
+/-- K13 (C03 / C10): inside `ThinArc::with_arc_mut`, `Arc::get_mut` is granted iff the allocation the transient refers to at
+that moment has exactly one owner; afterwards every slot stands on the block the script left it on (the lending ThinArc
+on the replacement / on what it received in a swap, also when the script panicked) -/
+theorem K13_sound_run (ops : List Op) (op : Op) :
+    checkK13 (observeSlots (run ops)) op (observe (run ops) op) = [] := K13_sound (inv_run ops) op
+
 /-- K2 + K3 (C01 / C05), with the part of the simulation they need: from a monitor state that describes `run ops`,
 the event fold reports nothing, the leak check reports nothing, and the new monitor state describes the next state -/
 theorem K23_sound (ops : List Op) (op : Op) (hf : FreshIds (ops ++ [op])) (st : MSt) (hr : Rel st (run ops)) :
@@ -177,7 +188,7 @@ theorem K23_sound (ops : List Op) (op : Op) (hf : FreshIds (ops ++ [op])) (st : 
   obtain ⟨h1, h2⟩ := checkOp_sound ops op hf st hr
   have h3 : (checkObsOnly st (observe (run ops) op)).2 = [] := by
     simp only [checkOp, List.append_eq_nil_iff] at h1
-    exact h1.1.1.1.1.1.1.1
+    exact h1.1.1.1.1.1.1.1.1.1
   simp only [checkObsOnly, List.append_eq_nil_iff] at h3
   exact ⟨h3.1.1.2, h3.1.2, h2⟩
 
@@ -374,6 +385,81 @@ example : checkTrace (modelTrace [.create 0 (.hsUninit ⟨4, 40⟩ 2), .create 1
     checkTrace (doctorLast (setVals 0 ⟨some ⟨4, 41⟩, none⟩) (modelTrace [.create 0 (.hsUninit ⟨4, 40⟩ 2)])) =
       [Fail.ctorContents "C06" 0] := by decide
 
+/-! ### K12 / K13 reject what they are there to reject -/
+
+/-- the callback tokens of the observation -/
+def setToks (t : List CbTok) (o : Obs) : Obs := { o with cbToks := t }
+
+/-- the block slot `i` stands on -/
+def setBlk (i b : Nat) (o : Obs) : Obs :=
+  { o with slots := o.slots.map fun e => if e.1 == i then (e.1, { e.2 with blk := b }) else e }
+
+/-- two ThinArcs: slot 0 on b0, slot 1 on b1 -/
+def thinPair : List Op :=
+  [.create 0 (.hwlFromVec ⟨9, 9⟩ 1 [⟨1, 1⟩]), .intoThin 0, .create 1 (.hwlFromVec ⟨8, 8⟩ 1 [⟨2, 2⟩]), .intoThin 1]
+
+def withArcHistory : List Op := thinPair ++ [.withCb 0 .thinWithArc [.cnt, .cloneTo 2, .cnt]]
+
+/-- the model: inside `with_arc` the count is 1 (the transient is not counted), 2 after the clone -/
+example : ((modelTrace withArcHistory).getLast?.map (·.2.cbToks)) = some [.cnt 1, .cloned, .cnt 2] := by decide
+
+/-- **a count read inside `with_arc` that is one too high** (the transient Arc was counted): C04 -/
+example : checkTrace (doctorLast (setToks [.cnt 2, .cloned, .cnt 3]) (modelTrace withArcHistory)) =
+    [Fail.cbCount "C04" 0 2 1] := by decide
+
+/-- the first read is right, the clone made inside the callback is not seen by the second: C04 -/
+example : checkTrace (doctorLast (setToks [.cnt 1, .cloned, .cnt 1]) (modelTrace withArcHistory)) =
+    [Fail.cbCount "C04" 0 1 2] := by decide
+
+/-- `with_raw_offset_arc`: the same, tagged C04 and C11; accessors that disagree are rejected as such -/
+example : checkTrace (doctorLast (setToks [.cnt 3, .cloned, .cnt 4])
+      (modelTrace [.create 0 (.new ⟨1, 7⟩), .clone 1 0, .withCb 0 .rawOffset [.cnt, .cloneArcTo 2, .cnt]])) =
+    [Fail.cbCount "C04" 0 3 2, Fail.cbCount "C11" 0 3 2] ∧
+    checkTrace (doctorLast (setToks [.cntBad])
+      (modelTrace [.create 0 (.new ⟨1, 7⟩), .withCb 0 .borrowWithArc [.cnt]])) = [Fail.cbCountSplit "C04" 0] := by decide
+
+def getMutHistory : List Op := thinPair ++ [.withCb 0 .thinWithArcMut [.cloneTo 2, .getMutWrite 5]]
+
+/-- the model: after the clone made in the same callback `get_mut` declines -/
+example : ((modelTrace getMutHistory).getLast?.map (·.2.cbToks)) = some [.cloned, .mutNone] := by decide
+
+/-- **a `get_mut` inside `with_arc_mut` granted while a clone made earlier in the same callback exists**: C03 -/
+example : checkTrace (doctorLast (setToks [.cloned, .mutSome]) (modelTrace getMutHistory)) =
+    [Fail.cbMut "C03" 0 true 0 2] := by decide
+
+/-- a `get_mut` refused on the sole owner; and one refused after the shared Arc was REPLACED by a solely owned one
+(slot 2 shares b0, slot 1 is the only owner of b1) -/
+example : checkTrace (doctorLast (setToks [.mutNone]) (modelTrace (thinPair ++ [.withCb 0 .thinWithArcMut [.getMutWrite 5]]))) =
+      [Fail.cbMut "C03" 0 false 0 1] ∧
+    ((modelTrace (thinPair ++ [.clone 2 0, .withCb 0 .thinWithArcMut [.getMutWrite 4, .replaceWith 1, .getMutWrite 5]])).getLast?.map
+      (·.2.cbToks)) = some [.mutNone, .replaced, .mutSome] ∧
+    checkTrace (doctorLast (setToks [.mutNone, .replaced, .mutNone])
+      (modelTrace (thinPair ++ [.clone 2 0, .withCb 0 .thinWithArcMut [.getMutWrite 4, .replaceWith 1, .getMutWrite 5]]))) =
+      [Fail.cbMut "C03" 0 false 1 1] := by decide
+
+def replaceHistory : List Op := thinPair ++ [.withCb 0 .thinWithArcMut [.replaceWith 1, .getMutWrite 5]]
+
+/-- the model: the lender's old allocation b0 is released, slot 1's ThinArc moved into the lender: slot 0 stands on b1 -/
+example : ((modelTrace replaceHistory).getLast?.map fun x => (x.2.cbToks, x.2.evs, x.2.slots.map fun e => (e.1, e.2.blk))) =
+    some ([.replaced, .mutSome], [.drop 9, .drop 1, .dealloc 0 32 8], [(0, 1)]) := by decide
+
+/-- **a ThinArc that still points at the old block after `replace`** (no write-back): the freed b0 is still referred to,
+b1 is leaked (C01), and C10: slot 0 should stand on b1 -/
+example : checkTrace (doctorLast (setBlk 0 0) (modelTrace replaceHistory)) =
+    [Fail.freeOwned "C01" 0 1, Fail.leak "C01" 1, Fail.cbPosition "C10" 0 1 (some 0)] := by decide
+
+/-- a swap whose write-back is lost when the callback panics (both ThinArcs stand where they stood): only K13 sees it -/
+example : ((modelTrace (thinPair ++ [.withCb 0 .thinWithArcMut [.swapWith 1, .panic]])).getLast?.map
+      fun x => (x.2.panicked, x.2.cbToks, x.2.slots.map fun e => (e.1, e.2.blk))) = some (true, [.swapped], [(1, 0), (0, 1)]) ∧
+    checkTrace (doctorLast (fun o => setBlk 0 0 (setBlk 1 1 o))
+      (modelTrace (thinPair ++ [.withCb 0 .thinWithArcMut [.swapWith 1, .panic]]))) =
+      [Fail.cbPosition "C10" 1 0 (some 1), Fail.cbPosition "C10" 0 1 (some 0)] := by decide
+
+/-- accepted by evaluation: clone / replace / swap / get_mut / panic mixed, target slots occupied (`skip`) -/
+example : checkTrace (modelTrace (thinPair ++ [.clone 2 0,
+      .withCb 0 .thinWithArcMut [.cnt, .cloneTo 1, .cloneTo 3, .getMutWrite 1, .swapWith 1, .getMutWrite 2, .replaceWith 3,
+        .getMutWrite 3, .replaceWith 0, .swapWith 7, .read, .panic, .cnt]])) = [] := by decide
+
 #print axioms monitor_accepts_model
 #print axioms monitor_accepts_model_perm
 #print axioms K1_sound
@@ -386,6 +472,10 @@ example : checkTrace (modelTrace [.create 0 (.hsUninit ⟨4, 40⟩ 2), .create 1
 #print axioms K9_sound_run
 #print axioms K10_sound_run
 #print axioms K11_sound_run
+#print axioms K12_sound_run
+#print axioms K13_sound_run
+#print axioms runCb_out
+#print axioms observe_cbToks_out
 #print axioms initinv_run
 #print axioms init_view_written
 #print axioms step_grow
